@@ -344,6 +344,7 @@ func (t *HtmlScanner) readTag() (tok *Token, err error) {
 					End:   t.pos,
 				}), nil
 			}
+			continue // CDATA 中的 > 不是 tag 结束
 		case stateTagSpace: // 读取 tag 中的空白
 			if ch == '>' {
 				break // tag 结束
